@@ -106,6 +106,19 @@ func checkPESDecode(c *mon.Ctx, stage string, idx int64, r *rand.Rand, pc *pesCa
 		return
 	}
 	judge("parsePESData", got, gerr, false)
+	if gerr == nil && werr == nil && got != nil && idClass == "" {
+		// the decoded value must not alias the buffer it was parsed from
+		scr := append([]byte{}, b...)
+		g2, e2 := astits.VerifParsePESData(scr)
+		for k := range scr {
+			scr[k] ^= 0x5A
+		}
+		if e2 == nil {
+			if d := mon.Diff(g2, want, nil); d != "" {
+				c.Violate("C12/decode/value-aliases-parse-buffer:"+fieldOf(d), stage, idx, "after the parse buffer was overwritten: "+d, data)
+			}
+		}
+	}
 	c.Count("pes_decoded_and_compared")
 	if viaTS {
 		u := &gen.Unit{PID: 0x100, Kind: gen.UnitPES, Payload: b}
